@@ -851,6 +851,22 @@ fn drive(seed: u64, group: u8, faults: bool) -> (String, Vec<String>, Vec<String
 }
 
 pub fn check_c20(scn: &Scenario) -> Checked {
+    if scn.batch == "wiring" {
+        let table = wiring_table();
+        let mut stats = RunStats::default();
+        stats.ops = table.len() as u64;
+        stats.calls = table.len() as u64;
+        stats.nontrivial = true;
+        stats.shape = 0x7ab1e;
+        *stats.probes.entry("wiring_table_entry_points".into()).or_default() += table.len() as u64;
+        stats.sample = Some(format!("wiring table: {} entry points, each mocked with its own response and called once through the upstream trait path: {}", table.len(), table.iter().map(|(n, ok)| format!("{n}={}", if *ok { "ok" } else { "FAIL" })).collect::<Vec<_>>().join(", ")));
+        let violations = table
+            .iter()
+            .filter(|(_, ok)| !ok)
+            .map(|(n, _)| v("C20", "entry-point-wiring", n.clone(), format!("{n}: mocked with its own unique response and called once through the upstream trait path, it was not served by its own entry point (wrong result, panic, or the mock's verification failed)")))
+            .collect();
+        return Checked { violations, stats, harness_error: None };
+    }
     let seed = scn.knob("io_seed").unwrap_or(1) as u64;
     let group = scn.knob("group").unwrap_or(0) as u8;
     let faults = scn.batch == "faults";
@@ -903,4 +919,178 @@ pub fn check_c20(scn: &Scenario) -> Checked {
         }
     }
     Checked { violations, stats, harness_error: None }
+}
+
+// ---------------------------------------------------------------------------------------------
+// Wiring table: every method of the mirrored traits, mocked with its own unique response and called
+// once through the upstream trait path, must be served by its own entry point.
+
+macro_rules! wire {
+    ($out:ident, $name:expr, $clause:expr, |$u:ident| $call:expr) => {{
+        let r = std::panic::catch_unwind(std::panic::AssertUnwindSafe(|| {
+            #[allow(unused_mut)]
+            let mut $u = Unimock::new($clause);
+            let ok: bool = $call;
+            // the entry point was matched exactly once: verification passes
+            let verified = std::panic::catch_unwind(std::panic::AssertUnwindSafe(move || $u.verify())).is_ok();
+            ok && verified
+        }));
+        $out.push(($name.to_string(), matches!(r, Ok(true))));
+    }};
+}
+
+pub fn wiring_table() -> Vec<(String, bool)> {
+    use embedded_hal::delay::DelayNs;
+    use embedded_hal::digital::{InputPin, OutputPin, PinState, StatefulOutputPin};
+    use embedded_hal::i2c::I2c;
+    use embedded_hal::pwm::SetDutyCycle;
+    use embedded_hal::spi::{SpiBus, SpiDevice};
+    use std::hash::Hasher;
+    let mut out: Vec<(String, bool)> = vec![];
+    let other = || io::Error::new(io::ErrorKind::Other, "x");
+    // std::io::Read
+    wire!(out, "Read::read", ReadMock::read.next_call(matching!(_)).returns(Ok(11usize)), |u| matches!(Read::read(&mut u, &mut [0u8; 4]), Ok(11)));
+    wire!(out, "Read::read_vectored", ReadMock::read_vectored.next_call(matching!(_)).returns(Ok(12usize)), |u| matches!(Read::read_vectored(&mut u, &mut []), Ok(12)));
+    wire!(out, "Read::read_to_end", ReadMock::read_to_end.next_call(matching!(_)).returns(Ok(13usize)), |u| matches!(Read::read_to_end(&mut u, &mut vec![]), Ok(13)));
+    wire!(out, "Read::read_to_string", ReadMock::read_to_string.next_call(matching!(_)).returns(Ok(14usize)), |u| matches!(Read::read_to_string(&mut u, &mut String::new()), Ok(14)));
+    wire!(out, "Read::read_exact", ReadMock::read_exact.next_call(matching!(_)).returns(Err(other())), |u| Read::read_exact(&mut u, &mut [0u8; 2]).is_err());
+    // std::io::Write
+    wire!(out, "Write::write", WriteMock::write.next_call(matching!(_)).returns(Ok(21usize)), |u| matches!(Write::write(&mut u, b"abc"), Ok(21)));
+    wire!(out, "Write::flush", WriteMock::flush.next_call(matching!()).returns(Err(other())), |u| Write::flush(&mut u).is_err());
+    wire!(out, "Write::write_vectored", WriteMock::write_vectored.next_call(matching!(_)).returns(Ok(23usize)), |u| matches!(Write::write_vectored(&mut u, &[]), Ok(23)));
+    wire!(out, "Write::write_all", WriteMock::write_all.next_call(matching!(_)).returns(Err(other())), |u| Write::write_all(&mut u, b"abc").is_err());
+    // std::io::BufRead
+    wire!(out, "BufRead::fill_buf", BufReadMock::fill_buf.next_call(matching!()).returns(Ok::<Vec<u8>, io::Error>(vec![7u8, 8])), |u| matches!(BufRead::fill_buf(&mut u), Ok(b) if b == [7u8, 8]));
+    wire!(out, "BufRead::consume", BufReadMock::consume.next_call(matching!(31)).returns(()), |u| {
+        BufRead::consume(&mut u, 31);
+        true
+    });
+    wire!(out, "BufRead::read_until", BufReadMock::read_until.next_call(matching!(_, _)).returns(Ok(32usize)), |u| matches!(BufRead::read_until(&mut u, b'x', &mut vec![]), Ok(32)));
+    wire!(out, "BufRead::read_line", BufReadMock::read_line.next_call(matching!(_)).returns(Ok(33usize)), |u| matches!(BufRead::read_line(&mut u, &mut String::new()), Ok(33)));
+    // std::io::Seek
+    wire!(out, "Seek::seek", SeekMock::seek.next_call(matching!(_)).returns(Ok(41u64)), |u| matches!(Seek::seek(&mut u, SeekFrom::Start(1)), Ok(41)));
+    wire!(out, "Seek::rewind", SeekMock::rewind.next_call(matching!()).returns(Err(other())), |u| Seek::rewind(&mut u).is_err());
+    wire!(out, "Seek::stream_position", SeekMock::stream_position.next_call(matching!()).returns(Ok(43u64)), |u| matches!(Seek::stream_position(&mut u), Ok(43)));
+    // core::hash::Hasher
+    wire!(out, "Hasher::finish", HasherMock::finish.next_call(matching!()).returns(51u64), |u| Hasher::finish(&u) == 51);
+    wire!(out, "Hasher::write", HasherMock::write.next_call(matching!(_)).returns(()), |u| {
+        Hasher::write(&mut u, b"ab");
+        true
+    });
+    macro_rules! hw {
+        ($m:ident, $v:expr) => {
+            wire!(out, concat!("Hasher::", stringify!($m)), HasherMock::$m.next_call(matching!(_)).returns(()), |u| {
+                Hasher::$m(&mut u, $v);
+                true
+            });
+        };
+    }
+    hw!(write_u8, 1);
+    hw!(write_u16, 2);
+    hw!(write_u32, 3);
+    hw!(write_u64, 4);
+    hw!(write_u128, 5);
+    hw!(write_usize, 6);
+    hw!(write_i8, 7);
+    hw!(write_i16, 8);
+    hw!(write_i32, 9);
+    hw!(write_i64, 10);
+    hw!(write_i128, 11);
+    hw!(write_isize, 12);
+    // core::fmt
+    wire!(out, "Display::fmt", DisplayMock::fmt.next_call(matching!(_)).answers(&|_, f| f.write_str("disp")), |u| format!("{u}") == "disp");
+    wire!(out, "Debug::fmt", unimock::mock::core::fmt::DebugMock::fmt.next_call(matching!(_)).answers(&|_, f| f.write_str("dbg")), |u| format!("{u:?}") == "dbg");
+    // embedded-hal
+    wire!(out, "DelayNs::delay_ns", ehm::delay::DelayNsMock::delay_ns.next_call(matching!(61)).returns(()), |u| {
+        DelayNs::delay_ns(&mut u, 61);
+        true
+    });
+    wire!(out, "DelayNs::delay_us", ehm::delay::DelayNsMock::delay_us.next_call(matching!(62)).returns(()), |u| {
+        DelayNs::delay_us(&mut u, 62);
+        true
+    });
+    wire!(out, "DelayNs::delay_ms", ehm::delay::DelayNsMock::delay_ms.next_call(matching!(63)).returns(()), |u| {
+        DelayNs::delay_ms(&mut u, 63);
+        true
+    });
+    wire!(out, "InputPin::is_high", ehm::digital::InputPinMock::is_high.next_call(matching!()).returns(Ok(true)), |u| matches!(InputPin::is_high(&mut u), Ok(true)));
+    wire!(out, "InputPin::is_low", ehm::digital::InputPinMock::is_low.next_call(matching!()).returns(Ok(true)), |u| matches!(InputPin::is_low(&mut u), Ok(true)));
+    wire!(out, "OutputPin::set_low", ehm::digital::OutputPinMock::set_low.next_call(matching!()).returns(Err(Unimock::new(()))), |u| OutputPin::set_low(&mut u).is_err());
+    wire!(out, "OutputPin::set_high", ehm::digital::OutputPinMock::set_high.next_call(matching!()).returns(Err(Unimock::new(()))), |u| OutputPin::set_high(&mut u).is_err());
+    wire!(out, "OutputPin::set_state", ehm::digital::OutputPinMock::set_state.next_call(matching!(_)).returns(Err(Unimock::new(()))), |u| OutputPin::set_state(&mut u, PinState::High).is_err());
+    wire!(out, "StatefulOutputPin::is_set_high", ehm::digital::StatefulOutputPinMock::is_set_high.next_call(matching!()).returns(Ok(true)), |u| matches!(StatefulOutputPin::is_set_high(&mut u), Ok(true)));
+    wire!(out, "StatefulOutputPin::is_set_low", ehm::digital::StatefulOutputPinMock::is_set_low.next_call(matching!()).returns(Ok(true)), |u| matches!(StatefulOutputPin::is_set_low(&mut u), Ok(true)));
+    wire!(out, "StatefulOutputPin::toggle", ehm::digital::StatefulOutputPinMock::toggle.next_call(matching!()).returns(Err(Unimock::new(()))), |u| StatefulOutputPin::toggle(&mut u).is_err());
+    wire!(out, "SetDutyCycle::max_duty_cycle", ehm::pwm::SetDutyCycleMock::max_duty_cycle.next_call(matching!()).returns(71u16), |u| SetDutyCycle::max_duty_cycle(&u) == 71);
+    wire!(out, "SetDutyCycle::set_duty_cycle", ehm::pwm::SetDutyCycleMock::set_duty_cycle.next_call(matching!(72)).returns(Err(Unimock::new(()))), |u| SetDutyCycle::set_duty_cycle(&mut u, 72).is_err());
+    wire!(out, "SetDutyCycle::set_duty_cycle_fully_off", ehm::pwm::SetDutyCycleMock::set_duty_cycle_fully_off.next_call(matching!()).returns(Err(Unimock::new(()))), |u| SetDutyCycle::set_duty_cycle_fully_off(&mut u).is_err());
+    wire!(out, "SetDutyCycle::set_duty_cycle_fully_on", ehm::pwm::SetDutyCycleMock::set_duty_cycle_fully_on.next_call(matching!()).returns(Err(Unimock::new(()))), |u| SetDutyCycle::set_duty_cycle_fully_on(&mut u).is_err());
+    wire!(out, "SetDutyCycle::set_duty_cycle_fraction", ehm::pwm::SetDutyCycleMock::set_duty_cycle_fraction.next_call(matching!(1, 2)).returns(Err(Unimock::new(()))), |u| SetDutyCycle::set_duty_cycle_fraction(&mut u, 1, 2).is_err());
+    wire!(out, "SetDutyCycle::set_duty_cycle_percent", ehm::pwm::SetDutyCycleMock::set_duty_cycle_percent.next_call(matching!(75)).returns(Err(Unimock::new(()))), |u| SetDutyCycle::set_duty_cycle_percent(&mut u, 75).is_err());
+    wire!(out, "I2c::transaction", ehm::i2c::I2cMock::transaction.with_types::<u8>().next_call(matching!(81, _)).returns(Err(Unimock::new(()))), |u| I2c::<u8>::transaction(&mut u, 81, &mut []).is_err());
+    wire!(out, "I2c::read", ehm::i2c::I2cMock::read.with_types::<u8>().next_call(matching!(82, _)).returns(Err(Unimock::new(()))), |u| I2c::<u8>::read(&mut u, 82, &mut [0]).is_err());
+    wire!(out, "I2c::write", ehm::i2c::I2cMock::write.with_types::<u8>().next_call(matching!(83, _)).returns(Err(Unimock::new(()))), |u| I2c::<u8>::write(&mut u, 83, &[0]).is_err());
+    wire!(out, "I2c::write_read", ehm::i2c::I2cMock::write_read.with_types::<u8>().next_call(matching!(84, _, _)).returns(Err(Unimock::new(()))), |u| I2c::<u8>::write_read(&mut u, 84, &[0], &mut [0]).is_err());
+    wire!(out, "SpiDevice::transaction", ehm::spi::SpiDeviceMock::transaction.with_types::<u8>().next_call(matching!(_)).returns(Err(Unimock::new(()))), |u| SpiDevice::<u8>::transaction(&mut u, &mut []).is_err());
+    wire!(out, "SpiDevice::read", ehm::spi::SpiDeviceMock::read.with_types::<u8>().next_call(matching!(_)).returns(Err(Unimock::new(()))), |u| SpiDevice::<u8>::read(&mut u, &mut [0]).is_err());
+    wire!(out, "SpiDevice::write", ehm::spi::SpiDeviceMock::write.with_types::<u8>().next_call(matching!(_)).returns(Err(Unimock::new(()))), |u| SpiDevice::<u8>::write(&mut u, &[0]).is_err());
+    wire!(out, "SpiDevice::transfer", ehm::spi::SpiDeviceMock::transfer.with_types::<u8>().next_call(matching!(_, _)).returns(Err(Unimock::new(()))), |u| SpiDevice::<u8>::transfer(&mut u, &mut [0], &[0]).is_err());
+    wire!(out, "SpiDevice::transfer_in_place", ehm::spi::SpiDeviceMock::transfer_in_place.with_types::<u8>().next_call(matching!(_)).returns(Err(Unimock::new(()))), |u| SpiDevice::<u8>::transfer_in_place(&mut u, &mut [0]).is_err());
+    wire!(out, "SpiBus::read", ehm::spi::SpiBusMock::read.with_types::<u8>().next_call(matching!(_)).returns(Err(Unimock::new(()))), |u| SpiBus::<u8>::read(&mut u, &mut [0]).is_err());
+    wire!(out, "SpiBus::write", ehm::spi::SpiBusMock::write.with_types::<u8>().next_call(matching!(_)).returns(Err(Unimock::new(()))), |u| SpiBus::<u8>::write(&mut u, &[0]).is_err());
+    wire!(out, "SpiBus::transfer", ehm::spi::SpiBusMock::transfer.with_types::<u8>().next_call(matching!(_, _)).returns(Err(Unimock::new(()))), |u| SpiBus::<u8>::transfer(&mut u, &mut [0], &[0]).is_err());
+    wire!(out, "SpiBus::transfer_in_place", ehm::spi::SpiBusMock::transfer_in_place.with_types::<u8>().next_call(matching!(_)).returns(Err(Unimock::new(()))), |u| SpiBus::<u8>::transfer_in_place(&mut u, &mut [0]).is_err());
+    wire!(out, "SpiBus::flush", ehm::spi::SpiBusMock::flush.with_types::<u8>().next_call(matching!()).returns(Err(Unimock::new(()))), |u| SpiBus::<u8>::flush(&mut u).is_err());
+    // Termination::report as a mocked method (it is partial by default: unmocked it verifies)
+    {
+        let r = std::panic::catch_unwind(|| {
+            let u = Unimock::new(unimock::mock::std::process::TerminationMock::report.next_call(matching!()).returns(std::process::ExitCode::from(7)));
+            let code = std::process::Termination::report(u);
+            format!("{code:?}") == format!("{:?}", std::process::ExitCode::from(7))
+        });
+        out.push(("Termination::report".to_string(), matches!(r, Ok(true))));
+    }
+    wire!(out, "digital::Error::kind", ehm::digital::ErrorMock::kind.next_call(matching!()).returns(embedded_hal::digital::ErrorKind::Other), |u| matches!(embedded_hal::digital::Error::kind(&u), embedded_hal::digital::ErrorKind::Other));
+    wire!(out, "i2c::Error::kind", ehm::i2c::ErrorMock::kind.next_call(matching!()).returns(embedded_hal::i2c::ErrorKind::Bus), |u| matches!(embedded_hal::i2c::Error::kind(&u), embedded_hal::i2c::ErrorKind::Bus));
+    wire!(out, "pwm::Error::kind", ehm::pwm::ErrorMock::kind.next_call(matching!()).returns(embedded_hal::pwm::ErrorKind::Other), |u| matches!(embedded_hal::pwm::Error::kind(&u), embedded_hal::pwm::ErrorKind::Other));
+    wire!(out, "spi::Error::kind", ehm::spi::ErrorMock::kind.next_call(matching!()).returns(embedded_hal::spi::ErrorKind::Overrun), |u| matches!(embedded_hal::spi::Error::kind(&u), embedded_hal::spi::ErrorKind::Overrun));
+    // tokio / futures-io (poll entry points, called directly)
+    {
+        use unimock::mock::tokio_1::io as t;
+        let waker = crate::exec::counting_waker();
+        let mut cx = Context::from_waker(&waker);
+        wire!(out, "tokio AsyncRead::poll_read", t::AsyncReadMock::poll_read.next_call(matching!(_, _)).returns(Poll::Ready(Err(other()))), |u| {
+            let mut b = [0u8; 2];
+            let mut rb = tokio::io::ReadBuf::new(&mut b);
+            matches!(tokio::io::AsyncRead::poll_read(Pin::new(&mut u), &mut cx, &mut rb), Poll::Ready(Err(_)))
+        });
+        wire!(out, "tokio AsyncWrite::poll_write", t::AsyncWriteMock::poll_write.next_call(matching!(_, _)).returns(Poll::Ready(Ok(91usize))), |u| matches!(tokio::io::AsyncWrite::poll_write(Pin::new(&mut u), &mut cx, b"ab"), Poll::Ready(Ok(91))));
+        wire!(out, "tokio AsyncWrite::poll_flush", t::AsyncWriteMock::poll_flush.next_call(matching!(_)).returns(Poll::Ready(Err(other()))), |u| matches!(tokio::io::AsyncWrite::poll_flush(Pin::new(&mut u), &mut cx), Poll::Ready(Err(_))));
+        wire!(out, "tokio AsyncWrite::poll_shutdown", t::AsyncWriteMock::poll_shutdown.next_call(matching!(_)).returns(Poll::Ready(Err(other()))), |u| matches!(tokio::io::AsyncWrite::poll_shutdown(Pin::new(&mut u), &mut cx), Poll::Ready(Err(_))));
+        wire!(out, "tokio AsyncWrite::poll_write_vectored", t::AsyncWriteMock::poll_write_vectored.next_call(matching!(_, _)).returns(Poll::Ready(Ok(94usize))), |u| matches!(tokio::io::AsyncWrite::poll_write_vectored(Pin::new(&mut u), &mut cx, &[]), Poll::Ready(Ok(94))));
+        wire!(out, "tokio AsyncWrite::is_write_vectored", t::AsyncWriteMock::is_write_vectored.next_call(matching!()).returns(true), |u| tokio::io::AsyncWrite::is_write_vectored(&u));
+        wire!(out, "tokio AsyncSeek::start_seek", t::AsyncSeekMock::start_seek.next_call(matching!(_)).returns(Err(other())), |u| tokio::io::AsyncSeek::start_seek(Pin::new(&mut u), SeekFrom::Start(0)).is_err());
+        wire!(out, "tokio AsyncSeek::poll_complete", t::AsyncSeekMock::poll_complete.next_call(matching!(_)).returns(Poll::Ready(Ok(96u64))), |u| matches!(tokio::io::AsyncSeek::poll_complete(Pin::new(&mut u), &mut cx), Poll::Ready(Ok(96))));
+        wire!(out, "tokio AsyncBufRead::consume", t::AsyncBufReadMock::consume.next_call(matching!(97)).returns(()), |u| {
+            tokio::io::AsyncBufRead::consume(Pin::new(&mut u), 97);
+            true
+        });
+    }
+    {
+        use unimock::mock::futures_0_3::io as f;
+        let waker = crate::exec::counting_waker();
+        let mut cx = Context::from_waker(&waker);
+        wire!(out, "futures AsyncRead::poll_read", f::AsyncReadMock::poll_read.next_call(matching!(_, _)).returns(Poll::Ready(Ok(101usize))), |u| matches!(futures_io::AsyncRead::poll_read(Pin::new(&mut u), &mut cx, &mut [0u8; 2]), Poll::Ready(Ok(101))));
+        wire!(out, "futures AsyncRead::poll_read_vectored", f::AsyncReadMock::poll_read_vectored.next_call(matching!(_, _)).returns(Poll::Ready(Ok(102usize))), |u| matches!(futures_io::AsyncRead::poll_read_vectored(Pin::new(&mut u), &mut cx, &mut []), Poll::Ready(Ok(102))));
+        wire!(out, "futures AsyncWrite::poll_write", f::AsyncWriteMock::poll_write.next_call(matching!(_, _)).returns(Poll::Ready(Ok(103usize))), |u| matches!(futures_io::AsyncWrite::poll_write(Pin::new(&mut u), &mut cx, b"ab"), Poll::Ready(Ok(103))));
+        wire!(out, "futures AsyncWrite::poll_flush", f::AsyncWriteMock::poll_flush.next_call(matching!(_)).returns(Poll::Ready(Err(other()))), |u| matches!(futures_io::AsyncWrite::poll_flush(Pin::new(&mut u), &mut cx), Poll::Ready(Err(_))));
+        wire!(out, "futures AsyncWrite::poll_close", f::AsyncWriteMock::poll_close.next_call(matching!(_)).returns(Poll::Ready(Err(other()))), |u| matches!(futures_io::AsyncWrite::poll_close(Pin::new(&mut u), &mut cx), Poll::Ready(Err(_))));
+        wire!(out, "futures AsyncWrite::poll_write_vectored", f::AsyncWriteMock::poll_write_vectored.next_call(matching!(_, _)).returns(Poll::Ready(Ok(106usize))), |u| matches!(futures_io::AsyncWrite::poll_write_vectored(Pin::new(&mut u), &mut cx, &[]), Poll::Ready(Ok(106))));
+        wire!(out, "futures AsyncSeek::poll_seek", f::AsyncSeekMock::poll_seek.next_call(matching!(_, _)).returns(Poll::Ready(Ok(107u64))), |u| matches!(futures_io::AsyncSeek::poll_seek(Pin::new(&mut u), &mut cx, SeekFrom::Start(0)), Poll::Ready(Ok(107))));
+        wire!(out, "futures AsyncBufRead::consume", f::AsyncBufReadMock::consume.next_call(matching!(108)).returns(()), |u| {
+            futures_io::AsyncBufRead::consume(Pin::new(&mut u), 108);
+            true
+        });
+    }
+    out
 }
